@@ -675,18 +675,66 @@ def closing_context_class(ctx, info):
     return closed
 
 
+def _unstarted_path(cfg: CFG, exit_node: Node):
+    """a path from entering ``async with Scope(gen(..)) as name`` to ``exit_node`` (the exit of that scope) on which ``name``
+    is never pulled - the generator is then closed without ever having been started; None if there is none"""
+    cm = exit_node.info.get("cm")
+    enters = [x for x in cfg.nodes if x.kind == "enter" and x.info.get("cm") is cm]
+    for en in enters:
+        item = en.ast
+        bound = getattr(item, "optional_vars", None)
+        name = bound.id if isinstance(bound, ast.Name) else None
+
+        def pulls(x: Node) -> bool:
+            if name is None:
+                return False
+            if x.kind in ("pull", "snext"):
+                it = x.info.get("iter")
+                return isinstance(it, ast.Name) and it.id == name
+            if x.kind == "await":
+                v = x.info.get("value")
+                return isinstance(v, ast.Call) and norm(v.func).split(".")[-1] in ("anext", "__anext__") and any(
+                    isinstance(a, ast.Name) and a.id == name for a in list(v.args) + [getattr(v.func, "value", None)])
+            return False
+
+        def edge_ok(a: Node, lab: str, b: Node) -> bool:
+            # entering the scope and asking a generator for its iterator (itself) do not fail
+            if lab in ("e", "p") and (a is en or (a.kind == "aiter" and isinstance(a.info.get("iter"), ast.Name)
+                                                  and a.info["iter"].id == name)):
+                return False
+            return True
+        path = find_path(en, lambda x: x is exit_node, avoid=pulls, edge_ok=edge_ok)
+        if path is not None:
+            return path
+    return None
+
+
 def close_nodes(ctx, unit: Unit, cfg: CFG, src: str, findings: List[Tuple[Node, str]]) -> Set[Node]:
     out: Set[Node] = set()
     for n in cfg.nodes:
         if n.kind == "exit_cm":
             cm = n.info.get("cm")
             v = ctx.vals.expr(unit, cm, n)
+            if any(a[0] == "scoped" for a in v) and isinstance(cm, ast.Call) and len(cm.args) == 1 and isinstance(cm.args[0], ast.Name):
+                # ``args = zip(*iterable)`` ... ``async with ScopedIter(args)``: what the local held when the scope was entered
+                from .common import inline_locals
+                enters = [x for x in cfg.nodes if x.kind == "enter" and x.info.get("cm") is cm]
+                if enters:
+                    cm = inline_locals(ctx, unit, cfg, enters[0], cm)
             if any(a[0] == "scoped" for a in v) and _expr_mentions(ctx, unit, cm, n, src):
                 # the scope closes what it was given; if that is a library generator that was handed the iterators, closing
                 # it releases them only if that generator releases what it is handed (``zip`` does, its inner generators do not)
                 inner = cm.args[0] if isinstance(cm, ast.Call) and len(cm.args) == 1 else None
                 handed = _handed_to_generator(ctx, unit, inner, n, src)
-                if handed is None or all(_releases_param(ctx, g, pn) for g, pn in handed):
+                unstarted = _unstarted_path(cfg, n) if handed is not None else None
+                if unstarted is not None:
+                    # closing an asynchronous generator that was never advanced does not run its body: its own clean-up
+                    # (the scope around what it was handed) never happens
+                    g, pn = handed[0]
+                    findings.append((n, f"the scope closes the library generator `{g.short}` that may never have been advanced "
+                                        f"({pretty_path(unstarted)}): closing an unstarted generator does not run its clean-up, "
+                                        f"what it was handed through `{pn}` stays open"))
+                elif handed is None or all(_releases_param(ctx, g, pn) for g, pn in handed):
                     out.add(n)
                 else:
                     g, pn = next((g, pn) for g, pn in handed if not _releases_param(ctx, g, pn))
